@@ -298,6 +298,10 @@ def create_nodesets_from_sidesets(mesh):
         return mesh.conns[elemOrdinal, mesh.parentElement.faceNodes[sideOrdinal,:]]
     
     for setName, sideSet in mesh.sideSets.items():
+        if len(sideSet) == 0:
+            # an empty side set (combine_sidesets stores it as np.array([])) has no nodes
+            nodeSets[setName] = np.array([], dtype=np.int_)
+            continue
         nodes = vmap(get_nodes_from_edge)(sideSet)
         nodeSets[setName] = np.unique(nodes.ravel())
 
